@@ -3,6 +3,7 @@ from __future__ import annotations
 
 from itertools import product
 
+from sa.anchors import is_helper
 from sa import terms as T
 from sa.core import AnalysisError
 from sa.symexec import Executor
@@ -25,7 +26,7 @@ def run_msg(ctx, which, rule):
     if m is None:
         raise AnalysisError(rule, 'anchor method vanished: CeiloChunk.metar_msg')
     ctx.saw(m)
-    ex = Executor(p, inline=lambda q, d: q.startswith('ampycloud.data.'), max_depth=6)
+    ex = Executor(p, inline=lambda q, d: q.startswith('ampycloud.data.') or is_helper(p, q), max_depth=6)
     s = ex.run(m, {'which': C(which)})
     return m, ex, s
 
@@ -65,9 +66,14 @@ class MsgFacts:
     def _split(e):
         from dataclasses import replace
         alts = _split_alternatives(e.value, e.guard)
-        if len(alts) == 1:
-            return [e]
-        return [replace(e, value=v, guard=g) for g, v in alts if g != T.FALSE]
+        out = []
+        for g, v in alts:
+            # a guard with disjunctions (flags set on several paths, single-exit restructurings) is one exit per
+            # disjunct: the decision tables read conjunctions of literals
+            for conj in (T.dnf(g) or [g]):
+                if conj != T.FALSE:
+                    out.append(replace(e, value=v, guard=conj))
+        return out
 
     def __init__(self, ctx, which, rule):
         self.which = which
